@@ -24,7 +24,8 @@ MANIFEST = {
                  "regenerated from source + differential touch-set correspondence + bitwise isolated replay",
 }
 REQUIRED = ["inst_state_projection", "noninterference", "same_projection_same_outputs", "finite_repro", "alone_outputs",
-            "seeded_repro", "read_pure", "global_untouched", "screen_code_present", "screen_code_uses_no_global_rng"]
+            "seeded_repro", "read_pure", "global_untouched", "screen_code_present", "screen_code_uses_no_global_rng",
+            "reads_do_not_matter", "reads_do_not_matter_outputs", "same_up_to_reads", "lazy_init_is_read_sensitive"]
 
 
 SEED_TYPES = ["int", "int", "int64", "int32", "uint32", "uint64", "big"]
